@@ -282,7 +282,7 @@ type lstate struct {
 	cons []LE
 	env  map[types.Object]*lval
 	flds map[string]*lval
-	pend []lobl // obligations of this path that could not be proved locally (non-root functions)
+	pend []lobl                  // obligations of this path that could not be proved locally (non-root functions)
 	memo map[*ast.CallExpr]*lval // value of an in-repo call that was interpreted (forking) ahead of its expression
 }
 
